@@ -34,6 +34,10 @@ def cloud(kind, n, seed):
         return np.c_[np.exp(rs.normal(0, 1.5, n)), np.exp(rs.normal(0.5, 1.5, n))]
     if kind == "lattice":
         return np.c_[rs.randint(0, 12, n).astype(float), rs.randint(0, 7, n).astype(float)]
+    if kind == "lattice_int":      # integer dtype (counts, whole centimetres), with ties and negative values
+        return np.c_[rs.randint(-3, 12, n), rs.randint(0, 7, n)].astype(np.int64)
+    if kind == "counts_int32":
+        return np.c_[rs.poisson(6.0, n), rs.poisson(2.5, n) - 2].astype(np.int32)
     raise ValueError(kind)
 
 
@@ -142,7 +146,7 @@ def case_seed(seed, alpha):
 
 
 def main(ctx):
-    ctx.rule = ("complete product: point cloud {3 model samples, rounded (ties), heavy-tailed, lattice} x n x seed x alpha in "
+    ctx.rule = ("complete product: point cloud {3 model samples, rounded (ties), heavy-tailed, float lattice, int64 lattice with negative values, int32 counts} x n x seed x alpha in "
                 "{1e-4,1e-3,.01,.1,.3} x deg_step in the 19 integer divisors of 360 in [1,60] and 7 float steps (1.5, 2.5, 4.5, 7.5, 22.5, 5.0, 12.0); plus sample=None (drawn from the "
                 "model, global RNG seeded). evaluations = contours; non-trivial = at least 2 sample points lie beyond each "
                 "tangent line (n*alpha >= 2).")
@@ -154,7 +158,7 @@ def main(ctx):
     steps = DIVISORS + FLOAT_STEPS
     seeds = (1, 2) if q else (1, 2, 3, 4)
     cases = []
-    for kind in ("hs_tz", "ew_ew", "ln_normal", "rounded", "heavy", "lattice"):
+    for kind in ("hs_tz", "ew_ew", "ln_normal", "rounded", "heavy", "lattice", "lattice_int", "counts_int32"):
         for n in ns:
             for seed in seeds:
                 for st in steps:
